@@ -3,7 +3,7 @@ concurrent with updates, upserts, deletes, appends and compaction) followed by i
 from checks import table_common as T
 
 FAMILIES = [dict(name="idx", ids=[1, 2, 3, 4], vals=[5], maxv=8, maxops=3, maxops_thorough=4, stable=[True, False],
-                 opkinds=["index", "update", "upsert", "delete", "append", "compact", "checkout"])]
+                 opkinds=["index", "colupdate", "update", "upsert", "delete", "append", "compact", "checkout"])]
 Q = lambda p: {"op": "query", "pred": p, "variants": [{"name": "base"}, {"use_scalar_index": False}]}
 TAIL = [Q(["cmp", "val", "=", 5]), Q(["cmp", "val", "=", 1]), Q(["cmp", "val", "=", 2]), Q(["isnull", "val"]),
         Q(["cmp", "val", "<", 5]), Q(["cmp", "val", ">=", 2]), Q(["in", "val", [1, 5]]), Q(["between", "val", 2, 5]),
